@@ -361,3 +361,156 @@ func columnStream(co *shape.Object) (*shape.Stream, bool) {
 	}
 	return found, n == 1
 }
+
+// flattenCalls expands, in a loop body, every statement that is just a call of an unexported,
+// result-less function or method of the same package into the statements of its body (to the
+// given depth): `for x := range ch { w.one(x) }` is analysed as if the body of one stood in the
+// loop. A `return` of the inlined body leaves the iteration, so it becomes `continue`; a body with
+// a return inside a nested loop, switch or function literal is left as a call.
+func (c *Ctx) flattenCalls(info *types.Info, list []ast.Stmt, depth int) []ast.Stmt {
+	var out []ast.Stmt
+	for _, s := range list {
+		es, ok := s.(*ast.ExprStmt)
+		if !ok || depth <= 0 {
+			out = append(out, s)
+			continue
+		}
+		call, ok := es.X.(*ast.CallExpr)
+		if !ok {
+			out = append(out, s)
+			continue
+		}
+		fn := callee(info, call)
+		if fn == nil || fn.Exported() {
+			out = append(out, s)
+			continue
+		}
+		d := c.P.Decls[fn.Origin()]
+		if d == nil || d.Decl.Body == nil || d.Pkg.TypesInfo != info {
+			out = append(out, s)
+			continue
+		}
+		if sig, ok := fn.Type().(*types.Signature); !ok || sig.Results().Len() != 0 {
+			out = append(out, s)
+			continue
+		}
+		body, ok := returnsToContinue(d.Decl.Body.List)
+		if !ok {
+			out = append(out, s)
+			continue
+		}
+		out = append(out, c.flattenCalls(info, body, depth-1)...)
+	}
+	return out
+}
+
+func returnsToContinue(list []ast.Stmt) ([]ast.Stmt, bool) {
+	ok := true
+	var conv func(s ast.Stmt) ast.Stmt
+	convBlock := func(b *ast.BlockStmt) *ast.BlockStmt {
+		if b == nil {
+			return nil
+		}
+		nb := &ast.BlockStmt{Lbrace: b.Lbrace, Rbrace: b.Rbrace}
+		for _, s := range b.List {
+			nb.List = append(nb.List, conv(s))
+		}
+		return nb
+	}
+	conv = func(s ast.Stmt) ast.Stmt {
+		switch x := s.(type) {
+		case *ast.ReturnStmt:
+			return &ast.BranchStmt{TokPos: x.Pos(), Tok: token.CONTINUE}
+		case *ast.BlockStmt:
+			return convBlock(x)
+		case *ast.IfStmt:
+			n := &ast.IfStmt{If: x.If, Init: x.Init, Cond: x.Cond, Body: convBlock(x.Body)}
+			if x.Else != nil {
+				n.Else = conv(x.Else)
+			}
+			return n
+		case *ast.ForStmt, *ast.RangeStmt, *ast.SwitchStmt, *ast.TypeSwitchStmt, *ast.SelectStmt, *ast.DeferStmt, *ast.GoStmt, *ast.LabeledStmt:
+			ast.Inspect(x, func(n ast.Node) bool {
+				if _, isLit := n.(*ast.FuncLit); isLit {
+					return false
+				}
+				if _, isRet := n.(*ast.ReturnStmt); isRet {
+					ok = false
+				}
+				return ok
+			})
+			if _, isDefer := x.(*ast.DeferStmt); isDefer {
+				ok = false // a deferred call runs at the end of the callee, not of the iteration
+			}
+		}
+		return s
+	}
+	var out []ast.Stmt
+	for _, s := range list {
+		out = append(out, conv(s))
+	}
+	// a trailing continue is redundant
+	if n := len(out); n > 0 {
+		if b, isB := out[n-1].(*ast.BranchStmt); isB && b.Tok == token.CONTINUE {
+			out = out[:n-1]
+		}
+	}
+	return out, ok
+}
+
+// inlineSingleReturn: for a call of an unexported function of the same package whose body is a
+// single `return expr`, the returned expression with the parameters replaced by the arguments
+// (a syntactic copy: identifiers and literals of the callee keep their type information).
+func (c *Ctx) inlineSingleReturn(info *types.Info, call *ast.CallExpr) ast.Expr {
+	fn := callee(info, call)
+	if fn == nil || fn.Exported() {
+		return nil
+	}
+	d := c.P.Decls[fn.Origin()]
+	if d == nil || d.Decl.Body == nil || d.Pkg.TypesInfo != info || len(d.Decl.Body.List) != 1 {
+		return nil
+	}
+	ret, ok := d.Decl.Body.List[0].(*ast.ReturnStmt)
+	if !ok || len(ret.Results) != 1 {
+		return nil
+	}
+	sub := map[types.Object]ast.Expr{}
+	i := 0
+	for _, f := range d.Decl.Type.Params.List {
+		for _, nm := range f.Names {
+			if i >= len(call.Args) {
+				return nil
+			}
+			sub[info.ObjectOf(nm)] = call.Args[i]
+			i++
+		}
+	}
+	var cp func(e ast.Expr) ast.Expr
+	cp = func(e ast.Expr) ast.Expr {
+		switch x := e.(type) {
+		case *ast.Ident:
+			if r, ok := sub[info.ObjectOf(x)]; ok {
+				return &ast.ParenExpr{X: r}
+			}
+			return x
+		case *ast.ParenExpr:
+			return &ast.ParenExpr{X: cp(x.X)}
+		case *ast.BinaryExpr:
+			return &ast.BinaryExpr{X: cp(x.X), Op: x.Op, OpPos: x.OpPos, Y: cp(x.Y)}
+		case *ast.UnaryExpr:
+			return &ast.UnaryExpr{Op: x.Op, OpPos: x.OpPos, X: cp(x.X)}
+		case *ast.CallExpr:
+			n := &ast.CallExpr{Fun: x.Fun, Lparen: x.Lparen, Rparen: x.Rparen}
+			for _, a := range x.Args {
+				n.Args = append(n.Args, cp(a))
+			}
+			return n
+		case *ast.SelectorExpr:
+			return &ast.SelectorExpr{X: cp(x.X), Sel: x.Sel}
+		case *ast.IndexExpr:
+			return &ast.IndexExpr{X: cp(x.X), Index: cp(x.Index)}
+		}
+		return e
+	}
+	return cp(ret.Results[0])
+}
